@@ -394,3 +394,7 @@ def run(ctx):
     check_unparse(ctx, ef)
     check_indent(ctx, res)
     check_frag_classification(ctx)
+    from .. import litdomain
+    ctx.rule('R4.4', "the docstring mode handed to the indentation family stays inside `bool | Literal['strict']`: 'strict' is singled out by equality, "
+                     "so another truthy literal silently re-indents every string in docstring position", 15)
+    litdomain.check(ctx, 'R4.4', lambda fi, p, ann: p == 'docstr' and "Literal['strict']" in ann, 15)
